@@ -108,19 +108,20 @@ def run(ctx):
         p = parsed[cid]
         traces.append({"id": cid, "opt": o["opt"], "req": {"uid": o["req"]["uid"], "gid": o["req"]["gid"]},
                        "child": p["child"], "parent": p["parent"]})
-    if len(traces) < len(sobs) * 0.9:
-        raise Inconclusive("strace logs yielded %d traces for %d launches" % (len(traces), len(sobs)))
+    trace_gap = len(traces) < sum(1 for o in sobs if o["started"]) * 0.9
     j, t = lc.par(lambda: ctx.tlc("Launch_Judge", files={"c04obs.ndjson": allobs}, timeout=900, count=False),
                   lambda: ctx.tlc("Launch_Trace", files={"ltraces.ndjson": traces}, timeout=1200, dfs=True) if traces else None)
     ctx.tlc_ok("Launch_Judge", j)
     bad = ctx.read_ndjson(os.path.join(j.dir, "c04bad.ndjson"))
     drift = 0
     truth = 0
+    setups = []
     for b in bad:
         o = allobs[b["i"] - 1]
         tag = "%s [%s]" % (b["what"], " ".join(lc.opt_on(o["opt"])))
         if b["j"] == "setup":
-            raise Inconclusive("driver could not arrange case %d: %s" % (o["id"], tag))
+            setups.append("driver could not arrange case %d: %s" % (o["id"], tag))
+            continue
         if b["j"] == "truth":
             truth += 1
             ctx.note("KERNEL-TRUTH mismatch %s" % tag)
@@ -137,14 +138,19 @@ def run(ctx):
             key = "%s:%s" % (what, b["sig"])
         ctx.violation(key, "C04 clause '%s' violated for options [%s]" % (what, " ".join(lc.opt_on(o["opt"]))), slim(o))
     ctx.cov["kernel_truth_mismatches"] = truth
-    if truth:
+    # set-up trouble makes the run inconclusive unless a real breach was observed anyway
+    if setups and not ctx.violations:
+        raise Inconclusive("; ".join(setups[:5]))
+    if trace_gap and not ctx.violations:
+        raise Inconclusive("strace logs yielded %d traces for %d started launches" % (len(traces), sum(1 for o in sobs if o["started"])))
+    if truth and not ctx.violations:
         raise Inconclusive("%d kernel-truth mismatches (probe self-report vs /proc/<pid> seen from outside)" % truth)
 
     if traces:
         if t.invariant:
             ctx.note("DRIFT: a strace step trace leads the model to a start state that violates Post (%s)" % t.invariant)
             drift += 1
-        elif not t.no_error:
+        elif not t.no_error and not ctx.violations:
             raise Inconclusive("Launch_Trace did not finish cleanly:\n" + t.tail(40))
         tb = ctx.read_ndjson(os.path.join(t.dir, "lbad.ndjson"))
         for b in tb:
@@ -159,7 +165,7 @@ def run(ctx):
         ctx.cov["step_traces_rejected"] = len(tb)
     ctx.cov["drift"] = drift
     ctx.cov["real_launches"] = len(allobs)
-    ctx.cov["site_combinations_started"] = len({o["opt"][k] and k or "" for o in allobs for k in ()}) or len({c["s"] for c in cases})
+    ctx.cov["site_combinations_started"] = len({c["s"] for c in cases})
     for o in (allobs[0], allobs[len(allobs) // 2]):
         ctx.sample(slim(o))
     if traces:
